@@ -17,7 +17,7 @@ MIN_DECISIVE = {'quick': 30, 'thorough': 600}
 CASE_TIMEOUT = 900
 WARMUP = True
 RULE = ('theorem cases: uniform or smoothly graded (non-constant dr) slices per layer; random 1-4 solid layers (+ optional static-liquid core), complex rigidity from the real Maxwell / Andrade / Burgers classes, l 2..4, '
-        'frequency 1e-7..1e-3, three nested grids with >= 200 slices in total; kernel cases: two-layer elastic body with a Gaussian perturbation of K or mu at two amplitudes; '
+        'frequency 1e-7..1e-3, three nested grids with >= 200 slices in total; kernel cases: two-layer elastic body on a uniform or smoothly graded grid with a Gaussian perturbation of K or mu at two amplitudes; '
         'non-trivial = all solves succeeded and -Im k > 1e-6 (theorem) / |delta k| > 1e-9 (kernel)')
 ASSUMPTIONS = ['discretisation error of the quadrature/stencil is first order in the slice spacing (upper layers start one slice above the interface): required |E(4N)| <= 0.75 |E(2N)| + 1/N_total, |E(2N)| <= 0.85 |E(N)| + 1/N_total and |E(4N)| <= 10/N_total (graded grids have local spacings up to 2.3x the mean; N_total = slices of the coarsest grid, >= 70 per layer)',
                'kernel: extrapolated ratio 2 rho(eps) - rho(2 eps) = 1 +- 2e-3 (shear) / 1.5e-2 (bulk; formed by cancellation from a finite-difference gradient) on grids of 600 slices per layer']
@@ -34,7 +34,7 @@ def gen_cases(tier, seed):
                       'profile': ['const', 'linear'][i % 2], 'grading': [0.0, 1.2, -0.8][i % 3] if i % 2 else [0.0, 0.0, 2.0][i % 3]})
     for i in range(nk):
         cases.append({'mon': 'kernel', 'which': ['K', 'mu'][i % 2], 'l': int(rng.choice([2, 3])), 'freq': float(10 ** rng.uniform(-6, -4)), 'R': float(10 ** rng.uniform(6, 7)),
-                      'eps': float(rng.choice([1e-3, 2e-3])), 'sub': i, 'seed': seed})
+                      'eps': float(rng.choice([1e-3, 2e-3])), 'sub': i, 'seed': seed, 'grading': [0.0, 1.5, -1.0][i % 3]})
     return cases
 
 
@@ -176,7 +176,7 @@ def eval_case(c):
     layers = [{'type': 'solid', 'static': False, 'incomp': False, 'ftop': rc, 'rho': 7000.0, 'mu': complex(9e10, 0), 'K': 2.5e11},
               {'type': 'solid', 'static': False, 'incomp': False, 'ftop': 1.0, 'rho': 3300.0, 'mu': complex(10 ** rng.uniform(10.3, 11), 0), 'K': float(10 ** rng.uniform(10.8, 11.4))}]
     N = 600
-    body = layered_body(layers, R, 1e-3 * R, N)
+    body = make_grid(layers, R, N, {'grading': c.get('grading', 0.0), 'profile': 'const'})     # uniform or smoothly graded slices (the kernels use non-uniform differences)
     cnt['solves'] += 1
     s0 = solve(body, w, l=l, kamata=True, rtol=1e-11, max_steps=600000, keep_result=True)
     if not s0['success']:
@@ -210,7 +210,7 @@ def eval_case(c):
             return inconclusive(f'perturbation too small to measure (dk={abs(dk):.1e})')
         rhos.append(dk.real / pred)
     ext = 2 * rhos[0] - rhos[1]
-    obs.update(which=c['which'], ratios=rhos, extrapolated=ext, k0=k0)
+    obs.update(which=c['which'], grading=c.get('grading', 0.0), ratios=rhos, extrapolated=ext, k0=k0)
     cnt['grids'] += 1
     # H_K = |r y1' + 2 y1 - l(l+1) y3|^2 is formed by cancellation (the dilatation is small) and uses a finite-difference y1' of the
     # interpolated solution, so it is noisy at the 1e-2 level on 600 slices per layer (converges under refinement; calibrated); H_mu is not.
